@@ -89,6 +89,39 @@ theorem C06_resolution_reset (b : CState) (c : Cls) (s : CState)
   · left; rfl
   · right; split <;> rfl
 
+/-- **C06_mixin_only_layout**: a second direct base that is a plain class (before or after the attrs parent in
+    `__bases__`) changes nothing about the definition outcome, the `__setattr__` the class resolves to, the
+    hook table, the flags or the fields — only whether instances have a `__dict__`.  In particular a hook-less
+    slotted class `C(Mixin, Hooked)` is reset exactly like `C(Hooked)`. -/
+theorem C06_mixin_only_layout (b : CState) (c : Cls) (m : Option Bool) :
+    (defineCls b { c with mixin := m }).map (fun s => { s with hasDict := false }) =
+      (defineCls b c).map (fun s => { s with hasDict := false }) := by
+  have hplain : (fun s : CState => { s with hasDict := false }) (definePlain b { c with mixin := m }) =
+      (fun s : CState => { s with hasDict := false }) (definePlain b c) := rfl
+  have hattrs : (defineAttrs b { c with mixin := m }).map (fun s => { s with hasDict := false }) =
+      (defineAttrs b c).map (fun s => { s with hasDict := false }) := by
+    unfold defineAttrs
+    have h1 : eff0Of b { c with mixin := m } = eff0Of b c := rfl
+    rw [h1]
+    cases eff0Of b c with
+    | error e => rfl
+    | ok e0 =>
+      have h2 : rejects b { c with mixin := m } e0 = rejects b c e0 := rfl
+      have h3 : saOf b { c with mixin := m } e0 = saOf b c e0 := rfl
+      have h4 : isFrozenOf b { c with mixin := m } = isFrozenOf b c := rfl
+      have h5 : hasCustomOf { c with mixin := m } = hasCustomOf c := rfl
+      simp only [h2]
+      cases rejects b c e0 with
+      | true => rfl
+      | false =>
+        simp only [Bool.false_eq_true, if_false, Except.map, finish, h3, h4, h5]
+        split <;> (try split) <;> (try split) <;> (try split) <;> rfl
+  unfold defineCls
+  simp only
+  split
+  · simpa [Except.map] using hplain
+  · exact hattrs
+
 /-- **C06_inherits_only_when_confused**: in a clean chain the class under test can resolve to an ancestor's
     hook table only if somewhere above it a *slotted* attrs class sits directly below a *plain* class —
     the "slotted confused" shape (K6); every other route resets or overwrites the inherited `__setattr__`. -/
@@ -224,16 +257,37 @@ def Atomic : Snap → List StepObs → Prop
 
 /-- **C06_failure_atomic (history)**: for assignment sequences of any length, any fault, any class: every
     step that raises leaves all probed names exactly as the previous step left them -/
-theorem C06_failure_atomic (rt : CState) (rv : Bool) (fault : Option (Nat × Nat)) (ps : List String)
-    (h : List Assign) (i : Nat) (st : Store) :
-    Atomic (snapshot ps st) (runHistory rt rv fault ps i st h) := by
+theorem C06_failure_atomic (rt : CState) (rv : Bool) (fault : Option (Nat × Nat)) (k : Option FaultKind)
+    (ps : List String) (h : List Assign) (i : Nat) (st : Store) :
+    Atomic (snapshot ps st) (runHistory rt rv fault k ps i st h) := by
   induction h generalizing i st with
   | nil => trivial
   | cons a rest ih =>
     simp only [runHistory, Atomic]
     refine ⟨?_, ih _ _⟩
     intro hexc
-    rw [C06_failure_atomic_step rt rv (faultAt fault i) st a.name a.value hexc]
+    have hexc' : (assign rt rv (faultAt fault i) st a.name a.value).2.exc ≠ none := by
+      intro hn; rw [hn] at hexc; exact hexc rfl
+    rw [C06_failure_atomic_step rt rv (faultAt fault i) st a.name a.value hexc']
+
+theorem retype_none (e : Exc) : retype none e = e := by cases e <;> rfl
+
+/-- **C06_failure_type_independent**: the type of the exception the faulty callback raises — KeyError, LookupError,
+    AttributeError, TypeError, ValueError, StopIteration, a BaseException that is not an Exception, or a
+    user error — changes nothing but the type that propagates: same callbacks, same values, for every
+    history, class and fault position (nothing between the callback and the caller inspects the exception) -/
+theorem C06_failure_type_independent (rt : CState) (rv : Bool) (fault : Option (Nat × Nat))
+    (k : Option FaultKind) (ps : List String) (h : List Assign) (i : Nat) (st : Store) :
+    runHistory rt rv fault k ps i st h =
+      (runHistory rt rv fault none ps i st h).map (fun o => { o with exc := o.exc.map (retype k) }) := by
+  induction h generalizing i st with
+  | nil => rfl
+  | cons a rest ih =>
+    simp only [runHistory, List.map_cons, ih, Option.map_map]
+    congr 2
+    cases (assign rt rv (faultAt fault i) st a.name a.value).2.exc with
+    | none => rfl
+    | some e => simp [retype_none]
 
 /-! ## C06_nonfield_plain -/
 
@@ -293,7 +347,7 @@ theorem C06_define_default_matches_init (cs : List Cls) (rt : CState) (l : Cls) 
         Init.callOk (Init.params ic.run.attrs) ic.call = true → f.toInit ∈ ic.run.attrs →
         Init.passed (Init.params ic.run.attrs) ic.call f.name = some v →
         (f.tag, (assign rt rv fault st n v).1.get n) ∈ (Init.runInit ic).values := by
-  obtain ⟨_, h2⟩ := step_ok cs rt l e0 hl rv fault [] st { name := n, value := v } none
+  obtain ⟨_, h2⟩ := step_ok cs rt l e0 hl rv fault none [] st { name := n, value := v } none
   obtain ⟨f, hf, hget⟩ := h2 hdd hexc
   refine ⟨f, hf, hget, ?_, ?_⟩
   · simp [chainEvents, setterEvents, pureApply]
@@ -450,7 +504,7 @@ theorem C06_model_meets_spec (c : Case) (hw : wf c = true) (hk : known c = []) :
     have hnk := known_nil c rt hd hk
     have hde : (model c).defErr = none := by rw [model_defErr, hd]; rfl
     have hsteps : (model c).steps =
-        runHistory rt c.runValidators c.fault (probes rt c.history) 0
+        runHistory rt c.runValidators c.fault c.faultKind (probes rt c.history) 0
           (if c.preset then presetStore rt else []) c.history := by
       unfold model; rw [hd]
     rw [hde, hsteps, initSnap_eq c.classes rt hl.inv]
